@@ -9,6 +9,18 @@ def showCell : Cell → String
   | .int n => toString n
   | .bytes b => toHex b
 
+def showRow : Row → String
+  | .none => "N"
+  | .list es => showList (es.map showCell)
+
+/-- a chunk's content: flat → cells; one-level repeated → assembled rows -/
+def showChunk (leaves : List Leaf) (c : ChunkData) : String :=
+  match leaves.find? (·.path == c.path) with
+  | some l =>
+    if l.maxRep = 0 then showList (c.cells.map showCell)
+    else showList ((assemble (l.repDef - 1) (entries l.maxDef c.defs c.reps c.values)).map showRow)
+  | none => "[]"
+
 def handleFile (op : String) (a : Args) : String :=
   let file := (a.bytes "bytes").toArray
   match op with
@@ -22,8 +34,8 @@ def handleFile (op : String) (a : Args) : String :=
       | [off, b] => (off.toNat!, parseHex b) | _ => (0, [])
     match decodeFile file payloads with
     | .ok (total, cols, rgs) =>
-      let rg := rgs.map fun r => s!"[{r.numRows},{showList (r.chunks.map fun c => showList (c.cells.map showCell))}]"
-      let metaS := cols.map fun l => s!"[{l.ptype},{match l.converted with | some c => (c : Int) | none => -1},{l.tsUnit},{l.maxDef},{l.typeLength}]"
+      let rg := rgs.map fun r => s!"[{r.numRows},{showList (r.chunks.map (showChunk cols))}]"
+      let metaS := cols.map fun l => s!"[{l.ptype},{match l.converted with | some c => (c : Int) | none => -1},{l.tsUnit},{l.maxDef},{l.typeLength},{l.maxRep},{l.repDef}]"
       s!"ok rows={total} cols={showList (cols.map fun l => toHex ((l.path.intersperse [46]).flatten))} meta={showList metaS} rgs={showList rg}"
     | .error e => s!"err invalid {e.replace " " "_"}"
   | "footer" =>
